@@ -1,7 +1,7 @@
 (* Indx/Bytes.v - little-endian unsigned words over byte lists (a byte is a Z in 0..255).
-   Definitions first (used by the specification Layout.v and by the code models Save.v / Load.v),
-   then the round-trip lemmas.  The word size is a [nat] (1, 2, 4 or 8 in every use). *)
-From Coq Require Import ZArith List Lia Bool.
+   DEFINITIONS ONLY (used by the specification Layout.v and by the code models Save.v / Load.v); the
+   lemmas are in BytesFacts.v.  The word size is a [nat] (1, 2, 4 or 8 in every use). *)
+From Coq Require Import ZArith List Bool.
 From Catii Require Import Base.Cases.
 Import ListNotations.
 Open Scope Z_scope.
@@ -45,134 +45,3 @@ Fixpoint sumZ (l : list Z) : Z :=
 
 Definition fits (w : nat) (v : Z) : Prop := 0 <= v < 256 ^ Z.of_nat w.
 Definition fits_b (w : nat) (v : Z) : bool := (0 <=? v) && (v <? 256 ^ Z.of_nat w).
-
-(* ------------------------------------------------------------------ lemmas *)
-
-Lemma zlen_app {A} (a b : list A) : zlen (a ++ b) = zlen a + zlen b.
-Proof. unfold zlen. rewrite app_length. lia. Qed.
-
-Lemma zlen_nonneg {A} (a : list A) : 0 <= zlen a.
-Proof. unfold zlen. lia. Qed.
-
-Lemma zlen_cons {A} (x : A) (a : list A) : zlen (x :: a) = 1 + zlen a.
-Proof. unfold zlen. cbn [length]. lia. Qed.
-
-Lemma zlen_nil {A} : zlen (@nil A) = 0.
-Proof. reflexivity. Qed.
-
-Lemma le_encode_length w : forall v, length (le_encode w v) = w.
-Proof. induction w as [|w IH]; intros v; cbn [le_encode length]; [reflexivity|rewrite IH; reflexivity]. Qed.
-
-Lemma le_encode_zlen w v : zlen (le_encode w v) = Z.of_nat w.
-Proof. unfold zlen. rewrite le_encode_length. reflexivity. Qed.
-
-Lemma le_encode_bytes w : forall v, Forall (fun b => 0 <= b < 256) (le_encode w v).
-Proof.
-  induction w as [|w IH]; intros v; cbn [le_encode]; constructor; [|apply IH].
-  apply Z.mod_pos_bound. lia.
-Qed.
-
-Lemma le_decode_encode_app w : forall v rest,
-  le_decode w (le_encode w v ++ rest) = v mod 256 ^ Z.of_nat w.
-Proof.
-  induction w as [|w IH]; intros v rest.
-  - cbn [le_encode le_decode app]. change (256 ^ Z.of_nat 0) with 1. rewrite Z.mod_1_r. destruct rest; reflexivity.
-  - cbn [le_encode le_decode app]. rewrite IH.
-    rewrite Nat2Z.inj_succ, Z.pow_succ_r by lia.
-    rewrite Z.rem_mul_r; [reflexivity|lia|]. apply Z.pow_pos_nonneg; lia.
-Qed.
-
-Theorem le_roundtrip w v : 0 <= v < 256 ^ Z.of_nat w -> le_decode w (le_encode w v) = v.
-Proof.
-  intros H. rewrite <- (app_nil_r (le_encode w v)), le_decode_encode_app. apply Z.mod_small. exact H.
-Qed.
-
-Lemma le_roundtrip_app w v rest : fits w v -> le_decode w (le_encode w v ++ rest) = v.
-Proof. intros H. rewrite le_decode_encode_app. apply Z.mod_small. exact H. Qed.
-
-Lemma firstn_app_exact {A} (a b : list A) n : length a = n -> firstn n (a ++ b) = a.
-Proof. intros <-. rewrite firstn_app, Nat.sub_diag, firstn_all. cbn [firstn]. apply app_nil_r. Qed.
-
-Lemma skipn_app_exact {A} (a b : list A) n : length a = n -> skipn n (a ++ b) = b.
-Proof. intros <-. rewrite skipn_app, Nat.sub_diag, skipn_all. reflexivity. Qed.
-
-Lemma encode_words_app w a b : encode_words w (a ++ b) = encode_words w a ++ encode_words w b.
-Proof. unfold encode_words. apply flat_map_app. Qed.
-
-Lemma encode_words_length w vs : length (encode_words w vs) = (w * length vs)%nat.
-Proof.
-  induction vs as [|v vs IH]; cbn [encode_words flat_map length]; [lia|].
-  rewrite app_length, le_encode_length. fold (encode_words w vs). rewrite IH. lia.
-Qed.
-
-Lemma encode_words_zlen w vs : zlen (encode_words w vs) = Z.of_nat w * zlen vs.
-Proof. unfold zlen. rewrite encode_words_length. lia. Qed.
-
-Lemma encode_words_concat w (rows : list (list Z)) :
-  concat (map (encode_words w) rows) = encode_words w (concat rows).
-Proof.
-  induction rows as [|r rows IH]; cbn [map concat]; [reflexivity|].
-  rewrite encode_words_app, IH. reflexivity.
-Qed.
-
-Lemma decode_encode_words w vs : forall rest, Forall (fits w) vs ->
-  decode_words w (length vs) (encode_words w vs ++ rest) = vs.
-Proof.
-  induction vs as [|v vs IH]; intros rest H; [reflexivity|].
-  inversion H as [|? ? Hv Hvs]; subst.
-  cbn [length decode_words encode_words flat_map]. fold (encode_words w vs).
-  rewrite <- app_assoc, le_roundtrip_app by exact Hv.
-  rewrite skipn_app_exact by apply le_encode_length.
-  rewrite IH by exact Hvs. reflexivity.
-Qed.
-
-Lemma decode_words_length w n : forall bs, length (decode_words w n bs) = n.
-Proof. induction n as [|n IH]; intros bs; cbn [decode_words length]; [reflexivity|rewrite IH; reflexivity]. Qed.
-
-Lemma chunk_length d n : forall ws, length (chunk d n ws) = n.
-Proof. induction n as [|n IH]; intros ws; cbn [chunk length]; [reflexivity|rewrite IH; reflexivity]. Qed.
-
-Lemma chunk_concat d (rows : list (list Z)) : Forall (fun r => length r = d) rows ->
-  chunk d (length rows) (concat rows) = rows.
-Proof.
-  induction rows as [|r rows IH]; intros H; [reflexivity|].
-  inversion H as [|? ? Hr Hrs]; subst.
-  cbn [length chunk concat]. rewrite firstn_app_exact, skipn_app_exact by reflexivity.
-  rewrite IH by exact Hrs. reflexivity.
-Qed.
-
-Lemma concat_length_uniform d (rows : list (list Z)) : Forall (fun r => length r = d) rows ->
-  length (concat rows) = (length rows * d)%nat.
-Proof.
-  induction rows as [|r rows IH]; intros H; [reflexivity|].
-  inversion H as [|? ? Hr Hrs]; subst. cbn [concat length]. rewrite app_length, IH by exact Hrs. lia.
-Qed.
-
-Lemma sumZ_app a b : sumZ (a ++ b) = sumZ a + sumZ b.
-Proof. induction a as [|x a IH]; cbn [app sumZ]; lia. Qed.
-
-Lemma concat_zlen (rows : list (list Z)) : zlen (concat rows) = sumZ (map (fun r => zlen r) rows).
-Proof.
-  induction rows as [|r rows IH]; [reflexivity|].
-  cbn [concat map sumZ]. rewrite zlen_app, IH. reflexivity.
-Qed.
-
-Lemma zl_eqb_true_iff a : forall b, zlist_eqb a b = true <-> a = b.
-Proof.
-  induction a as [|x a IH]; intros [|y b]; cbn [zlist_eqb]; split; intros H;
-    try reflexivity; try discriminate.
-  - apply andb_true_iff in H. destruct H as [H1 H2]. apply Z.eqb_eq in H1. apply IH in H2. subst. reflexivity.
-  - inversion H; subst. rewrite Z.eqb_refl. cbn [andb]. apply IH. reflexivity.
-Qed.
-
-Lemma zl_eqb_refl a : zlist_eqb a a = true.
-Proof. apply zl_eqb_true_iff. reflexivity. Qed.
-
-Lemma zl_eqb_length a b : zlist_eqb a b = true -> length a = length b.
-Proof. intros H. apply zl_eqb_true_iff in H. subst. reflexivity. Qed.
-
-Lemma fits_b_spec w v : fits_b w v = true <-> fits w v.
-Proof. unfold fits_b, fits. rewrite andb_true_iff, Z.leb_le, Z.ltb_lt. tauto. Qed.
-
-Lemma pow256 : 256 ^ Z.of_nat 1 = 2 ^ 8 /\ 256 ^ Z.of_nat 2 = 2 ^ 16 /\ 256 ^ Z.of_nat 4 = 2 ^ 32 /\ 256 ^ Z.of_nat 8 = 2 ^ 64.
-Proof. repeat split; reflexivity. Qed.
